@@ -319,7 +319,10 @@ func (g *Gen) wrap(parts []string, mark string) string {
 // failing snippets: each makes the render return an error.
 func (g *Gen) failing() (string, string) {
 	r := g.R
-	switch r.Intn(10) {
+	switch r.Intn(11) {
+	case 10: // a LESS source the compiler chokes on (it panics inside; the render must report an error and leave nothing locked)
+		g.Eng.Less = true
+		return "<style type=\"text/css+less\">\n.w {\n  w: hsvsaturation(rgb();\n}\n</style>", "less-compiler-panic"
 	case 7: // the failure comes after text and an interpolation of the same text node
 		return `<p>Card of {{ name }}: {{ n | nosuchfilter }} tail</p>`, "unknown-filter-late-in-text"
 	case 8: // ... of the same attribute value
